@@ -43,6 +43,7 @@ class YowNoiseLayer(YowLayer):
         self._stream = BlockingQueueSegmentedStream()  # type: BlockingQueueSegmentedStream
         self._read_buffer = bytearray()
         self._flush_lock = threading.Lock()
+        self._flush_owner = None
         self._incoming_segments_queue = Queue.Queue()
         self._profile = None
         self._rs = None
@@ -164,10 +165,18 @@ class YowNoiseLayer(YowLayer):
         self._wa_noiseprotocol.send(data)
 
     def _flush_incoming_buffer(self):
+        if self._flush_owner is threading.current_thread():
+            # re-entered through a protocol state callback fired by receive() below,
+            # the flush already running in this thread delivers the queued segments
+            return
         self._flush_lock.acquire()
-        while self._incoming_segments_queue.qsize():
-            self.toUpper(self._wa_noiseprotocol.receive())
-        self._flush_lock.release()
+        self._flush_owner = threading.current_thread()
+        try:
+            while self._incoming_segments_queue.qsize():
+                self.toUpper(self._wa_noiseprotocol.receive())
+        finally:
+            self._flush_owner = None
+            self._flush_lock.release()
 
     def receive(self, data):
         """
